@@ -1658,7 +1658,12 @@ where
         if self.parser.remaining() == 0 {
             return None;
         }
-        Some(ASP::parse(&mut self.parser))
+        let res = ASP::parse(&mut self.parser);
+        if res.is_err() {
+            // an item-level error is the last item this iterator yields
+            self.parser.advance_to_end();
+        }
+        Some(res)
     }
 }
 
@@ -1725,6 +1730,10 @@ where
             NlriType::Unsupported(..) => { return None; }
         };
 
+        if res.is_err() {
+            // an item-level error is the last item this iterator yields
+            self.parser.advance_to_end();
+        }
         Some(res)
     }
 }
